@@ -50,6 +50,10 @@ def check(run, project):
                        "walker obligations by CFG dominance and def-use on abstract traces; framing by loop specialisation")
     guards.check(run, project, L)
     c20.t6(run, project, L, facets={"decode"}, rule="W0")
+    # W16 (= C04-V5): a well-formed encoding only decodes in strict mode if the value of every field is in the allowed set the
+    # layout declares for it: the valid-value facets of all types equal the pinned snapshot (a value dropped from a set makes
+    # strict decoding reject well-formed input)
+    c20.t6(run, project, L, facets={"valid"}, rule="W16")
     w1(run, roles, L)
     w2(run, roles)
     from .c02 import primitive_event_once
